@@ -3,6 +3,7 @@
 From Coq Require Import Ascii String.
 From Coq Require Import List NArith ZArith QArith Bool Arith.
 From V Require Import Str Num Doc Broadcast.
+Local Open Scope list_scope.
 Import ListNotations.
 Local Open Scope string_scope.
 Local Open Scope list_scope.
@@ -44,26 +45,49 @@ Record rowmeta := {
 
 Definition lines_needed (tw cw : Q) : Z := Z.max 1 (qtrunc (tw / cw) + 1).
 
-Definition width_of (widths : list (str * Q)) (s : str) : res Q :=
+(* key of the width oracle: text NUL font NUL num/den of the size *)
+Definition wkey (s : str) (font : Z) (size : Q) : str :=
+  let q := Qred size in
+  s ++ [0%N] ++ dec_of_Z font ++ [0%N] ++ dec_of_Z (Qnum q) ++ [47%N] ++ dec_of_Z (Zpos (Qden q)).
+
+Definition width_at (widths : list (str * Q)) (s : str) (font : Z) (size : Q) : res Q :=
   match s with
   | [] => Ok (0 # 1)
-  | _ => of_opt (assoc s widths) OtherErr        (* oracle miss: a harness error, never a Python error *)
+  | _ => of_opt (assoc (wkey s font size) widths) OtherErr   (* oracle miss: a harness error, never a Python error *)
   end.
 
+Definition width_of (widths : list (str * Q)) (s : str) : res Q := width_at widths s 1 (9 # 1).
+
 (* per-row line estimate over the displayed columns *)
-Fixpoint data_lines (widths : list (str * Q)) (removed : list nat) (cw : list Q)
+(* font and size of the cell being measured: looked up in the column-reduced table attributes *)
+Definition cell_font (fonts : omat Z) (r c : nat) : res Z :=
+  match fonts with
+  | Some ((_ :: _) as v) => of_opt (iloc v r c) ValueErr
+  | _ => Ok 1%Z
+  end.
+Definition cell_size (sizes : omat Q) (r c : nat) : res Q :=
+  match sizes with
+  | Some ((_ :: _) as v) => of_opt (iloc v r c) ValueErr
+  | _ => Ok (9 # 1)
+  end.
+
+Fixpoint data_lines (widths : list (str * Q)) (fonts : omat Z) (sizes : omat Q) (row_idx : nat)
+         (removed : list nat) (cw : list Q)
          (row : list val) (col_idx : nat) (width_idx : nat) (acc : Z) : res Z :=
   match row with
   | [] => Ok acc
   | v :: rest =>
-    if existsb (Nat.eqb col_idx) removed then data_lines widths removed cw rest (S col_idx) width_idx acc
+    if existsb (Nat.eqb col_idx) removed
+    then data_lines widths fonts sizes row_idx removed cw rest (S col_idx) width_idx acc
     else
       match nth_error cw width_idx with
       | None => Ok acc                       (* width_idx >= len(col_widths): break *)
       | Some cur =>
         let prev := match width_idx with O => 0 # 1 | S k => nth k cw (0 # 1) end in
-        do tw <- width_of widths (py_str v);
-        data_lines widths removed cw rest (S col_idx) (S width_idx)
+        do font <- cell_font fonts row_idx width_idx;
+        do size <- cell_size sizes row_idx width_idx;
+        do tw <- width_at widths (py_str v) font size;
+        data_lines widths fonts sizes row_idx removed cw rest (S col_idx) (S width_idx)
                    (Z.max acc (lines_needed tw (cur - prev)))
       end
   end.
@@ -72,7 +96,8 @@ Definition header_rows (widths : list (str * Q)) (text : str) (total_width : Q) 
   do tw <- width_of widths text;
   Ok (Z.max 1 (qtrunc (tw / total_width) + 1)).
 
-Fixpoint metas (widths : list (str * Q)) (cols : list str) (removed : list nat) (cw : list Q)
+Fixpoint metas (widths : list (str * Q)) (fonts : omat Z) (sizes : omat Q) (row_idx : nat)
+         (cols : list str) (removed : list nat) (cw : list Q)
          (page_by subline_by : option (list str))
          (rows : list (list val)) (pbc slc : list bool) : res (list rowmeta) :=
   match rows with
@@ -81,7 +106,7 @@ Fixpoint metas (widths : list (str * Q)) (cols : list str) (removed : list nat) 
     let pb_change := hd true pbc in
     let sl_change := hd true slc in
     let total_width := qsum cw in
-    do dl <- data_lines widths removed cw row 0 0 1;
+    do dl <- data_lines widths fonts sizes row_idx removed cw row 0 0 1;
     do pbr <- match page_by with
               | Some keys =>
                 if pb_change && negb (match keys with [] => true | _ => false end) then
@@ -98,14 +123,15 @@ Fixpoint metas (widths : list (str * Q)) (cols : list str) (removed : list nat) 
                 else Ok 0%Z
               | None => Ok 0%Z
               end;
-    do ms <- metas widths cols removed cw page_by subline_by rest (tl pbc) (tl slc);
+    do ms <- metas widths fonts sizes (S row_idx) cols removed cw page_by subline_by rest (tl pbc) (tl slc);
     let nonempty o := match o with Some (_ :: _) => true | _ => false end in
     Ok ({| rm_data := dl; rm_pb := pbr; rm_sl := slr; rm_total := (dl + pbr + slr)%Z;
            rm_gs := if nonempty page_by then pb_change else false;
            rm_ss := if nonempty subline_by then sl_change else false |} :: ms)
   end.
 
-Definition row_metadata (widths : list (str * Q)) (f : frame) (removed : list nat) (cw : list Q)
+Definition row_metadata (widths : list (str * Q)) (fonts : omat Z) (sizes : omat Q)
+           (f : frame) (removed : list nat) (cw : list Q)
            (page_by subline_by : option (list str)) : res (list rowmeta) :=
   let pbc := match page_by with
              | Some ((_ :: _) as k) => changes (f_cols f) k (f_rows f)
@@ -113,7 +139,7 @@ Definition row_metadata (widths : list (str * Q)) (f : frame) (removed : list na
   let slc := match subline_by with
              | Some ((_ :: _) as k) => changes (f_cols f) k (f_rows f)
              | _ => map (fun _ => true) (f_rows f) end in
-  metas widths (f_cols f) removed cw page_by subline_by (f_rows f) pbc slc.
+  metas widths fonts sizes 0 (f_cols f) removed cw page_by subline_by (f_rows f) pbc slc.
 
 (* _assign_pages: greedy; state = (first row?, current page, rows on it) *)
 Fixpoint assign_loop (avail : Z) (new_page : bool) (ms : list rowmeta) (first : bool) (page cur : Z)
